@@ -7,7 +7,7 @@ import numpy as np
 
 from .. import contracts, gen, ref
 
-DECIDING = ["contract:permute_systems", "O2:product-form", "O3:inverse-undoes", "O4:row-only=P.X", "contract:swap",
+DECIDING = ["O1:tiny-entries", "contract:permute_systems", "O2:product-form", "O3:inverse-undoes", "O4:row-only=P.X", "contract:swap",
             "contract:permutation_operator", "O5:swap_operator", "O6:sparse=dense", "O1:omitted-dim", "H1:repeat-call", "O1:many-subsystems"]
 RULE = ("cases = every permutation of n<=4 subsystems (random ones for n=5,6) x random independent row/column local "
         "dimensions in 1..4 x flags x dtype x memory layout x dim calling form, entries are unique ids; a signature is "
@@ -49,6 +49,8 @@ def cases(tier):
         out.append(("repeat", r))
     for r in range(48 if tier == "quick" else 4000):
         out.append(("many", r))
+    for r in range(48 if tier == "quick" else 6000):
+        out.append(("tiny", r))
     if tier == "thorough":
         out.append(("suite", 0))
     return out
@@ -86,6 +88,56 @@ def run(ctx, spec, rng):
 def _perm_of(spec, rng):
     n = spec[1]
     return list(spec[2]) if spec[2] is not None else [int(v) for v in rng.permutation(n)]
+
+
+def tiny_operand(rng, rows, cols, r):
+    """Operands whose entries are tiny in absolute terms, or whose off-diagonal part is: moving entries is exact, whatever their size."""
+    kind = r % 4
+    g = rng.normal(size=(rows, cols)) + (1j * rng.normal(size=(rows, cols)) if (r // 4) % 2 else 0)
+    if kind == 0:
+        return "tiny-overall", g * 10.0 ** -int(rng.integers(9, 14))
+    if kind == 1:
+        x = g * 10.0 ** -int(rng.integers(9, 13))
+        k = min(rows, cols)
+        x[np.arange(k), np.arange(k)] = rng.normal(size=k) + 2
+        return "order-one-diagonal-tiny-rest", x
+    if kind == 2:
+        x = g * 1e-9
+        x[int(rng.integers(0, rows)), int(rng.integers(0, cols))] = 1.0
+        return "one-large-entry-tiny-rest", x
+    x = np.zeros((rows, cols), dtype=g.dtype)
+    k = min(rows, cols)
+    x[np.arange(k), np.arange(k)] = rng.normal(size=k)
+    x[int(rng.integers(0, rows)), int(rng.integers(0, cols))] += 1e-11
+    return "diagonal-plus-one-tiny-entry", x
+
+
+def _run_tiny(ctx, spec, rng):
+    """Entries of absolute size 1e-9 .. 1e-13 (overall, or everywhere off the diagonal): a relabelling moves them like any other entry."""
+    from toqito.perms import permute_systems, swap
+
+    r = spec[1]
+    n = 2 + r % 3
+    d = gen.dims(rng, n, 1, 3, max_total=36)
+    big = int(np.prod(d))
+    perm = [int(v) for v in rng.permutation(n)]
+    inv = bool((r // 3) % 2)
+    cls, x = tiny_operand(rng, big, big, r)
+    res = ctx.call(permute_systems, x.copy(), perm, list(d), False, inv)
+    if res is not ctx_failed():
+        want = ref.permute(x, perm, d, d, inv)
+        ctx.check("O1:tiny-entries", np.shape(res) == want.shape and np.array_equal(res, want), sig=("permute", cls, n, inv, x.dtype.kind), nt=perm != sorted(perm),
+                  mech=f"permute_systems:tiny-entries-not-moved[{cls}]", detail={"d": d, "perm": perm, "inv": inv, "x": x, "got": res})
+    if n >= 2:
+        i, j = (int(v) for v in rng.permutation(n)[:2])
+        res = ctx.call(swap, x.copy(), [i + 1, j + 1], list(d))
+        if res is not ctx_failed():
+            p2 = list(range(n))
+            p2[i], p2[j] = p2[j], p2[i]
+            want = ref.permute(x, p2, d, d)
+            ctx.check("O1:tiny-entries", np.shape(res) == want.shape and np.array_equal(res, want), sig=("swap", cls, n, x.dtype.kind), nt=d[i] * d[j] > 1,
+                      mech=f"swap:tiny-entries-not-moved[{cls}]", detail={"d": d, "sys": [i + 1, j + 1], "x": x, "got": res})
+    ctx.sample("O1:tiny-entries", {"class": cls, "dims": d, "perm": perm})
 
 
 def _run_many(ctx, spec, rng):
@@ -256,16 +308,18 @@ def _run_swap(ctx, spec, rng):
     perm[i - 1], perm[j - 1] = perm[j - 1], perm[i - 1]
     row_only = rng.random() < 0.25
     if square:
-        dim = list(dr) if rng.random() < 0.5 else np.array(dr)
+        dim = [list(dr), np.array(dr), [list(dr), list(dr)], np.array([dr, dr])][int(rng.integers(0, 4))]
         mech = None
     else:
-        dim = [list(dr), list(dc)]
+        dim = [list(dr), list(dc)] if rng.random() < 0.5 else np.array([dr, dc])
         mech = "crash:swap:2-row-dim,n>2" if n > 2 else None
-    res = ctx.call(swap, x, [i, j], dim, row_only, mech=mech)
+    lay = ["C", "F", "strided", "neg", "ro"][int(rng.integers(0, 5))]
+    x = gen.layout(x, lay)  # the same values in another memory layout
+    res = ctx.call(swap, x, [i, j], dim, row_only, mech=mech, freeze=False)
     if res is not ctx_failed():
         want = ref.permute(x, perm, dr, dc if not row_only else [x.shape[1]] + [1] * (n - 1), False, row_only)
-        ctx.check("O5:swap=transposition", np.array_equal(res, want), sig=(n, square, row_only), nt=True, mech="swap:transposition",
-                  detail={"sys": [i, j], "dr": dr, "dc": dc})
+        ctx.check("O5:swap=transposition", np.array_equal(res, want), sig=(n, square, row_only, lay), nt=True, mech="swap:transposition",
+                  detail={"sys": [i, j], "dr": dr, "dc": dc, "layout": lay})
         ctx.sample("contract:swap", {"shape": x.shape, "sys": [i, j], "dr": dr, "dc": dc, "row_only": row_only})
     # vector swap
     v = gen.unique_ids((int(np.prod(dr)),), "f")
